@@ -253,3 +253,16 @@ pub fn trainer_labels(
     }
     Ok((sets, dump_maps(&trainer.config.feature_extractor), nexts))
 }
+
+/// The unigram feature ids (1-origin) that carry a weight index in the trained model.
+pub fn unigram_weighted_ids(model: &super::Model) -> Vec<u32> {
+    model
+        .data
+        .raw_model
+        .unigram_weight_indices()
+        .iter()
+        .enumerate()
+        .filter(|(_, w)| w.is_some())
+        .map(|(i, _)| i as u32 + 1)
+        .collect()
+}
